@@ -21,8 +21,9 @@ const (
 	OutOK = iota
 	OutErr
 	OutGoexit
-	OutCancel // cancels the context, then returns nil
-	OutHang   // never returns
+	OutCancel      // cancels the context, then returns nil
+	OutHang        // never returns
+	OutErrCanceled // returns an error that is context.Canceled although the directive's context is live
 )
 
 type Cube struct {
@@ -31,10 +32,11 @@ type Cube struct {
 	N        int
 	Continue bool
 	Emitter  bool
-	Outcomes []int // allowed outcomes
-	MaxGoex  int   // bound on number of Goexit outcomes
-	PreCanc  bool  // context may already be cancelled before the call
-	Timer    bool  // a timer may cancel the context at any step
+	Outcomes []int   // allowed outcomes
+	PerJob   [][]int `json:",omitempty"` // optional per-job restriction of the outcome set
+	MaxGoex  int     // bound on number of Goexit outcomes
+	PreCanc  bool    // context may already be cancelled before the call
+	Timer    bool    // a timer may cancel the context at any step
 	Ticks    int
 	K        int // steps (0 = default)
 	Mid      int // number of jobs enqueued only after an explicit pause marker (unused)
@@ -55,7 +57,11 @@ func (c *Cube) String() string {
 	if c.Emitter {
 		em = fmt.Sprintf("+em%d", c.Ticks)
 	}
-	return fmt.Sprintf("J%d[%s]N%d%s%s out=%v g%d pre=%v tmr=%v", c.J(), strings.Join(ds, "|"), c.N, mode, em, c.Outcomes, c.MaxGoex, c.PreCanc, c.Timer)
+	per := ""
+	if len(c.PerJob) > 0 {
+		per = fmt.Sprintf(" perjob=%v", c.PerJob)
+	}
+	return fmt.Sprintf("J%d[%s]N%d%s%s out=%v%s g%d pre=%v tmr=%v", c.J(), strings.Join(ds, "|"), c.N, mode, em, c.Outcomes, per, c.MaxGoex, c.PreCanc, c.Timer)
 }
 
 // HarnessSource renders the overlay file declaring one harness per cube.
@@ -117,27 +123,28 @@ type L1 struct {
 	E    *Engine
 	S    *Sys
 
-	started, ended, endedOK, failed, goexited []int // ghost Bool cells per job
-	running                                   int   // BV8
-	submitted, submittedDeps                  int   // BV8
-	emits                                     int   // BV8 number of state reports
-	ctxChan                                   *Obj
-	retErr                                    int // 2 cells: tag,data
-	returned                                  int // Bool
-	emitAfterReturn                           int
-	Out                                       []*Term
-	preCancel                                 *Term
-	timerArmed                                *Term
-	timerFired                                int
-	tickerStopped, tickerTicks                int
-	tickerChan                                *Obj
-	tickerMade                                bool
-	errInvalid                                Value
-	startedAt                                 [][]*Term // [t][k], t=0 is the state before step 0
+	started, ended, endedOK, failed, goexited, errCanc []int // ghost Bool cells per job
+	running                                            int   // BV8
+	submitted, submittedDeps                           int   // BV8
+	emits                                              int   // BV8 number of state reports
+	ctxChan                                            *Obj
+	retErr                                             int // 2 cells: tag,data
+	returned                                           int // Bool
+	emitAfterReturn                                    int
+	Out                                                []*Term
+	preCancel                                          *Term
+	timerArmed                                         *Term
+	timerFired                                         int
+	tickerStopped, tickerTicks                         int
+	tickerChan                                         *Obj
+	tickerMade                                         bool
+	errInvalid                                         Value
+	startedAt                                          [][]*Term // [t][k], t=0 is the state before step 0
 }
 
 const (
 	errDataCanceled = 1
+	errDataDeadline = 2
 	errDataJobBase  = 1000
 	errDataNewBase  = 2000
 )
@@ -155,6 +162,7 @@ func NewL1(P *Program, c *Cube) *L1 {
 		l.endedOK = append(l.endedOK, l.cell(0, fmt.Sprintf("endedOK%d", k)))
 		l.failed = append(l.failed, l.cell(0, fmt.Sprintf("failed%d", k)))
 		l.goexited = append(l.goexited, l.cell(0, fmt.Sprintf("goexited%d", k)))
+		l.errCanc = append(l.errCanc, l.cell(0, fmt.Sprintf("errCanc%d", k)))
 		l.Out = append(l.Out, B.Var(fmt.Sprintf("out_%d", k), 8))
 	}
 	l.running = l.cell(8, "running")
@@ -346,6 +354,13 @@ func (l *L1) installIntrinsics() {
 						q.Store(e, l.endedOK[k], B.True)
 						ic.Return(e, q, nilIface(B))
 					}})
+				case OutErrCanceled:
+					vs = append(vs, StubVariant{What: "errcanceled", En: B.Eq(out, B.BV(8, OutErrCanceled)), Apply: func(e *Engine, q *Path, ic *ICall) {
+						common(q)
+						q.Store(e, l.failed[k], B.True)
+						q.Store(e, l.errCanc[k], B.True)
+						ic.Return(e, q, opaqueErr(B, errDataCanceled))
+					}})
 				case OutHang:
 					// never enabled
 				}
@@ -413,7 +428,8 @@ func (l *L1) atReturn(p *Path, err Value) {
 		legit := B.And(ctxDone, e.valEq(err, opaqueErr(B, errDataCanceled)))
 		anyGoexit := B.False
 		for k := 0; k < J; k++ {
-			legit = B.Or(legit, B.And(p.Load(e, l.failed[k]), B.Not(p.Load(e, l.goexited[k])), e.valEq(err, opaqueErr(B, errDataJobBase+uint64(k)))))
+			legit = B.Or(legit, B.And(p.Load(e, l.failed[k]), B.Not(p.Load(e, l.goexited[k])), B.Not(p.Load(e, l.errCanc[k])), e.valEq(err, opaqueErr(B, errDataJobBase+uint64(k)))))
+			legit = B.Or(legit, B.And(p.Load(e, l.errCanc[k]), e.valEq(err, opaqueErr(B, errDataCanceled))))
 			anyGoexit = B.Or(anyGoexit, p.Load(e, l.goexited[k]))
 		}
 		legit = B.Or(legit, B.And(anyGoexit, e.valEq(err, opaqueErr(B, errDataNewBase+e.Str("job exited unexpectedly")))))
@@ -532,6 +548,19 @@ func (l *L1) Build() {
 		unsupported("package init forked into %d paths", len(paths))
 	}
 	e.init = paths[0].Heap
+	// the sentinel errors of package context are the engine's context errors
+	if cp := P.SSA["context"]; cp != nil {
+		for name, data := range map[string]uint64{"Canceled": errDataCanceled, "DeadlineExceeded": errDataDeadline} {
+			if gv := cp.Var(name); gv != nil {
+				a := e.globalAddr(gv) - AddrBase
+				for len(e.init) <= a+1 {
+					e.init = append(e.init, nil)
+				}
+				e.init[a] = B.BV(16, TagOpaqErr)
+				e.init[a+1] = B.BV(64, data)
+			}
+		}
+	}
 	g := P.SSA[SchedPkg].Var("errJobInvalid")
 	ip := &Path{Guard: B.True, Heap: e.init}
 	ga := e.globalAddr(g)
@@ -598,7 +627,11 @@ func (l *L1) Build() {
 	// outcome domain
 	for k := range l.Out {
 		dom := B.False
-		for _, o := range c.Outcomes {
+		set := c.Outcomes
+		if k < len(c.PerJob) && len(c.PerJob[k]) > 0 {
+			set = c.PerJob[k]
+		}
+		for _, o := range set {
 			dom = B.Or(dom, B.Eq(l.Out[k], B.BV(8, uint64(o))))
 		}
 		s.Constraints = append(s.Constraints, dom)
@@ -628,6 +661,7 @@ type Obligation struct {
 	Assert   *Term
 	WantSat  bool
 	Internal bool // bound / vacuity bookkeeping rather than a property
+	Oracle   string
 }
 
 func (l *L1) flag(name string) *Term {
